@@ -119,6 +119,9 @@ def diamond_program(rnd):
             inner.append(["yield", [rnd.choice(["list", "tuple"]), members]])
         inner.append(["read", "sv0"])
         body = [ov(inner)]
+        if rnd.random() < 0.35:
+            # first wait synchronously for the (possibly in-flight) shared task, THEN open the override and block in it
+            body.insert(0, ["syncshared", 0])
         if rnd.random() < 0.5:
             body.append(["read", "sv0"])
         if rnd.random() < 0.3:
